@@ -157,3 +157,13 @@ func (e *Env) Relocate(newName string) error {
 	e.Logf("relocate workspace %s -> %s (cache carried to the new prefix)", filepath.Base(oldWS), newName)
 	return nil
 }
+
+// WipeOutputs removes every declared output from the workspace (a fresh checkout with a warm cache).
+func (e *Env) WipeOutputs() {
+	for _, t := range e.Spec.Targets {
+		for _, o := range t.AllOuts() {
+			_ = os.RemoveAll(spec.OutAbs(e.WS, t.Pkg, o.Path))
+		}
+	}
+	e.Logf("wipe all declared outputs from the workspace")
+}
